@@ -30,6 +30,7 @@ type factsOut struct {
 	NilSites     []nilSite           `json:"nil_sites"`      // F3 (second part): non-`,ok` assertions and dereferences of possibly-nil lookup results
 	ReplyLiteral int                 `json:"reply_literal"`  // … and how many have a compile-time constant payload
 	ExecEntryMin int                 `json:"exec_entry_min"` // what the analysis of an executor assumes about len(cmd) on entry
+	AliasSites   []aliasSite         `json:"alias_sites"`    // F7: in-place writes to byte slices and values installed in the keyspace, with the provenance class of the slice
 }
 
 func callName(e ast.Expr) string {
@@ -182,6 +183,10 @@ func runFacts(args []string) {
 		out.Sites, out.ExecCalls, out.ExecEntryMin = sites, x.calls, execEntryMin
 		out.ReplySites, out.ReplyLiteral = x.replies, x.literal
 		out.NilSites = x.nils
+		out.AliasSites = x.alias
+		if out.AliasSites == nil {
+			out.AliasSites = []aliasSite{}
+		}
 		if out.ReplySites == nil {
 			out.ReplySites = []replySite{}
 		}
